@@ -51,6 +51,7 @@ MEM_BASE_KIB = 64 * 1024
 
 STORES = ("disk", "mem")
 PATHS = ("add_pack", "add_thin_pack", "add_pack_data", "receive-pack")
+EXTRA_PATHS = (("disk", "bundle.store_objects"), ("mem", "bundle.store_objects"), ("disk", "unpack_objects"))
 FAMILY_OF = {"pair": "pair", "loose": "loose", "index": "index", "packed-refs": "prefs", "cgraph": "cgraph", "midx": "midx", "bitmap": "bitmap"}
 
 _SEEDS = None
@@ -255,6 +256,8 @@ def build_tasks(ctx):
     stream_seeds = ["thin", "ofs2", "full3"]  # smallest first
     attacks = sorted(k for k in S["streams"] if k.startswith("atk:"))
     small_attacks = [k for k in attacks if len(S["streams"][k]["data"]) <= 400]
+    if q:  # quick: of the 32 size-header lies only "declared = real - 1" (the case the per-call inflation bound cannot see) under every split
+        small_attacks = [k for k in small_attacks if "sizelie" not in k or k.endswith("-1")]
     # ---- ingest: every mutant of every seed through every path of every store
     for seed in stream_seeds:
         muts = stream_muts(S, seed, q)
@@ -267,6 +270,21 @@ def build_tasks(ctx):
         for path in PATHS:
             add("ingest:attacks", both, [("ingest", a, None, (kind, path, None)) for a in attacks])
     add("stream:attacks", both, [("stream", a, None, (w, None)) for a in attacks for w in ("PackStreamReader", "PackStreamCopier")])
+    # two more ways in which dulwich itself ingests a pack somebody handed over (valid seeds and attacks only)
+    for kind, path in EXTRA_PATHS:
+        add("ingest:attacks", both, [("ingest", a, None, (kind, path, None)) for a in stream_seeds + attacks])
+    # a bomb behind every chunk boundary of the first 64 bytes of its zlib stream (the per-call inflation bound is "declared + 1")
+    for a in attacks:
+        if not a.startswith("atk:bomb-") or "honest" in a:
+            continue
+        st = S["streams"][a]
+        z0 = [b_ for b_, e, lab in st["spans"] if lab.endswith(":zlib")][-1]  # start of the (last) entry's zlib stream
+        cs = []
+        for c in range(z0 + 1, z0 + 65):
+            cs += [("stream", a, None, (w, c)) for w in ("PackStreamReader", "PackStreamCopier")]
+            cs += [("ingest", a, None, (k, "add_thin_pack", c)) for k in STORES]
+            cs.append(("ingest", a, None, ("disk", "receive-pack", c)))
+        add("split:bomb-attacks", ("rust",), cs)
     # ---- every 2-chunk split through recv
     for seed in stream_seeds + small_attacks:
         L = len(S["streams"][seed]["data"])
